@@ -59,12 +59,12 @@ func (e *AExpr) Src() string {
 }
 
 type modelOut struct {
-	V        ref.Dec
-	Skip     string // outside the quantifier
-	RemOpen  bool   // remainder with > 34 digit quotient: NaN or exact
-	Rounded  bool
-	Tie      bool
-	DiffExp  bool
+	V       ref.Dec
+	Skip    string // outside the quantifier
+	RemOpen bool   // remainder with > 34 digit quotient: NaN or exact
+	Rounded bool
+	Tie     bool
+	DiffExp bool
 }
 
 func applyOp(op string, a, b ref.Dec) modelOut {
